@@ -966,6 +966,13 @@ func (c *VCtx) pointAsserts(fr *Frame, st *State, point string, pos token.Pos) {
 	c.pointsHit[FuncKey(fr.fn)+"|"+point] = true
 	for i, a := range fr.contract.Asserts[point] {
 		sc := &Scope{c: c, vars: c.baseVars(fr), st: st, old: fr.entry, fr: fr, pkg: fnPkgPath(fr.fn), exitOf: fr.curBlock}
+		if c.assertOld != nil {
+			// assertions at an atomic operation are two-state: old() is the state just before the operation
+			sc.old = c.assertOld
+		}
+		for k, v := range c.assertExtra {
+			sc.vars[k] = v
+		}
 		for j, p := range fr.fn.Params {
 			sc.vars[p.Name()] = fr.env[p]
 			if j == 0 && fr.fn.Signature.Recv() != nil {
